@@ -919,6 +919,8 @@ class Lower:
         if name in ('min', 'max') and len(a) == 2 and self.types.classify(qt(n))[0] == 'builtin':
             # std::min(a, b) = (b < a) ? b : a ; std::max(a, b) = (a < b) ? b : a   (scalar operands of one type, side-effect free in the rule table)
             return '((%s) < (%s) ? (%s) : (%s))' % ((a[1], a[0], a[1], a[0]) if name == 'min' else (a[0], a[1], a[1], a[0]))
+        if name == 'eof' and not a:
+            return '(-1)'         # std::char_traits<char>::eof()
         if name == 'make_unique':
             # std::make_unique<X>(args): creation of a writer object on the heap is left to the prelude (make_unique__<X> observes the arguments)
             rcls, rt = self.types.classify(qt(n))
